@@ -388,3 +388,9 @@ def bounds_declared(u: Unit):
 
 
 STANDIN[r"bounds\\.declared"] = BOUNDS_REPLAY
+
+
+# the values applied to the pipeline for the REPORT (re-simulation of the last champions) are each island's own champion parameters
+unit("C10", "resimulation.pairs")(_CR.pairs_unit)
+unit("C10", "run_evolve")(_CR.evolve_unit)
+STANDIN[r"resimulation|run_evolve"] = _CR.PAIRS_REPLAY
